@@ -1999,7 +1999,7 @@ def gen_analyzer_histories(n, rng):
 
 def gen_cases(tier, rng):
     cases = []
-    cases += gen_analyzer_histories(100 if tier == "quick" else 800, rng)
+    cases += gen_analyzer_histories(100 if tier == "quick" else 500, rng)
     cases += gen_histories(200 if tier == "quick" else 1500, rng)
     cases += gen_exhaustive(tier, rng)
     for j, rx in enumerate(TEXTBOOK_NETS):
@@ -2019,8 +2019,8 @@ def gen_cases(tier, rng):
         cases += gen_petri(300, rng)
         cases += gen_flows(260, rng, 1200, 2, 2500)
     else:
-        cases += gen_random_nets(4000, rng)
-        cases += gen_petri(3000, rng)
+        cases += gen_random_nets(3000, rng)
+        cases += gen_petri(2000, rng)
         cases += gen_flows(2500, rng, 3000, 4, 10000)
     return cases
 
